@@ -170,4 +170,142 @@ theorem serveSeq_eq (c : Codes) (t : Transport) (steps : List Step) (acc : List 
       | some m => simp [ih, hr, Nat.add_assoc]
       | none => simp [ih, hr, Nat.add_assoc]
 
+/-! ### structure facts, decode decision, twins -/
+
+theorem finalMessageG_spec (t : Transport) (resp : Message) (q : Bytes) :
+    finalMessageG specServe t resp q = finalMessage t resp q := by
+  cases t <;> simp [finalMessageG, specServe]
+
+theorem respondG_spec (c : Codes) (t : Transport) (req : Req) (utf8 found : Bool) (hv ho : HOut) (rej : Bytes) :
+    respondG specServe c t req utf8 found hv ho rej = respond c t req utf8 found hv ho rej := by
+  unfold respondG respond
+  simp only [finalMessageG_spec]
+  cases route c req utf8 found <;> cases t <;> cases req.isNotify <;> simp [specServe]
+
+theorem errorLike_wf (req : Req) (code : Nat) (msg : Bytes) (hid : req.header.id < 2^64)
+    (hc : code < 2^32) (hl : 48 + req.query.length + msg.length < 2^64) : (errorLike req code msg).WF := by
+  have h := errorUnstamped_wf req code msg hid hc (by omega)
+  have hb : (errorUnstamped req code msg).body = msg := rfl
+  have hbl := h.blen
+  rw [hb] at hbl
+  refine ⟨⟨?_, h.inRange.spec, h.inRange.version, h.inRange.notify, h.inRange.reserved, hid, ?_,
+    h.inRange.bodyLength, h.inRange.queryFormat, h.inRange.bodyFormat, h.inRange.ec⟩, h.spec, rfl, h.blen, ?_⟩
+  · show 48 + req.query.length + (errorUnstamped req code msg).header.bodyLength < 2^64
+    rw [hbl]; exact hl
+  · show req.query.length < 2^64
+    omega
+  · show 48 + req.query.length + (errorUnstamped req code msg).header.bodyLength = 48 + req.query.length + msg.length
+    rw [hbl]
+
+theorem builtinResponse_wf (req : Req) (bf : Nat) (body : Bytes) (hid : req.header.id < 2^64) (hbf : bf < 2^16)
+    (hl : 48 + body.length < 2^64) : (builtinResponse req bf body).WF := by
+  unfold builtinResponse
+  refine Builder.build_wf _ hid (by simp) ?_ hbf (by simpa using hl)
+  show (if req.header.queryFormat ≤ 1 then req.header.queryFormat else 0) < 2^16
+  split <;> omega
+
+/-- The decision does not depend on which twin decodes, once both read the same facts. -/
+theorem decodeDecision_congr (f g : DecodeFacts) (h : f = g) (fmt : Nat) (e d : Bool) :
+    decodeDecision f fmt e d = decodeDecision g fmt e d := by rw [h]
+
+theorem decodeDecision_reject {f : DecodeFacts} {fmt : Nat} {e d : Bool} {c : Nat}
+    (h : decodeDecision f fmt e d = .reject c) : c = f.rejectCode ∧ fmt ∉ f.accepts := by
+  unfold decodeDecision at h
+  split at h
+  · cases h
+  · split at h
+    · split at h <;> cases h
+    · cases h; exact ⟨rfl, by assumption⟩
+
+theorem decodeDecision_fail {f : DecodeFacts} {fmt : Nat} {e d : Bool} {c : Nat} {b : Bool}
+    (h : decodeDecision f fmt e d = .fail c b) : c = f.failCode ∧ b = f.failIsErr ∧ d = false := by
+  unfold decodeDecision at h
+  split at h
+  · cases h
+  · split at h
+    · split at h
+      · cases h
+      · cases h
+        refine ⟨rfl, rfl, ?_⟩
+        cases d <;> simp_all
+    · cases h
+
+theorem finalMessage_ec (t : Transport) (resp : Message) (q : Bytes) :
+    (finalMessage t resp q).header.ec = resp.header.ec := by
+  cases t <;> simp [finalMessage, asyncFrameMsg, stamp_ec, Header.patchLengths]
+
+theorem finalMessage_id (t : Transport) (resp : Message) (q : Bytes) :
+    (finalMessage t resp q).header.id = resp.header.id := by
+  cases t <;> simp [finalMessage, asyncFrameMsg, stamp_id, Header.patchLengths]
+
+theorem finalMessage_body (t : Transport) (resp : Message) (q : Bytes) :
+    (finalMessage t resp q).body = resp.body := by
+  cases t <;> simp [finalMessage, asyncFrameMsg, stamp_body]
+
+theorem finalMessage_query (t : Transport) (resp : Message) (q : Bytes) :
+    (finalMessage t resp q).query = if resp.query.isEmpty then q else resp.query := by
+  cases t <;> simp [finalMessage, asyncFrameMsg, stamp_query, responseEchoQuery]
+
+/-- The message `dispatch_view` / `dispatch` turn a handler outcome into. -/
+def outMsg (e : Entry) (req : Req) : HOut → Message
+  | .ok m => m
+  | .err c msg => errorFor e req c msg
+
+/-- Entry point the dispatch layer itself uses on transport `t`. -/
+def layerEntry : Transport → Entry
+  | .wsOff => .owned
+  | _ => .view
+
+theorem respond_dispatch (c : Codes) (t : Transport) (req : Req) (utf8 found : Bool) (hv ho : HOut) (rej : Bytes)
+    (hr : route c req utf8 found = .dispatch) (hn : req.isNotify = false) :
+    (respond c t req utf8 found hv ho rej).1 =
+      some (finalMessage t (outMsg (layerEntry t) req (match t with | .wsOff => ho | _ => hv)) req.query) := by
+  unfold respond
+  rw [hr]
+  simp only [hn]
+  cases t <;> simp only [Bool.false_eq_true, if_false, layerEntry] <;>
+    first
+      | (cases hv <;> rfl)
+      | (cases ho <;> rfl)
+
+theorem respond_wsOff_hview (c : Codes) (req : Req) (utf8 found : Bool) (hv hv' ho : HOut) (rej : Bytes) :
+    respond c .wsOff req utf8 found hv ho rej = respond c .wsOff req utf8 found hv' ho rej := by
+  unfold respond
+  cases route c req utf8 found <;> rfl
+
+/-- Error code a built-in handler's outcome carries, as a function of the decoding decision and the closure. -/
+def builtinEc (f : DecodeFacts) (fmt : Nat) (bodyEmpty decodable : Bool) (cl : Closure) : Nat :=
+  match decodeDecision f fmt bodyEmpty decodable with
+  | .reject c => c
+  | .fail c _ => c
+  | .value => match cl with
+    | .ok _ _ => 0
+    | .err c _ => c
+
+theorem builtin_out_ec (f : DecodeFacts) (e e' : Entry) (req : Req) (d : Bool) (cl : Closure) (txt : Bytes) :
+    (outMsg e' req (builtinHandle f e req d cl txt)).header.ec =
+      builtinEc f req.header.bodyFormat req.body.isEmpty d cl := by
+  unfold builtinHandle builtinEc
+  cases decodeDecision f req.header.bodyFormat req.body.isEmpty d with
+  | reject c => cases e <;> rfl
+  | fail c b => cases b <;> cases e <;> cases e' <;> rfl
+  | value => cases cl <;> cases e <;> rfl
+
+theorem builtin_out_id (f : DecodeFacts) (e e' : Entry) (req : Req) (d : Bool) (cl : Closure) (txt : Bytes) :
+    (outMsg e' req (builtinHandle f e req d cl txt)).header.id = req.header.id := by
+  unfold builtinHandle
+  cases decodeDecision f req.header.bodyFormat req.body.isEmpty d with
+  | reject c => cases e <;> rfl
+  | fail c b => cases b <;> cases e <;> cases e' <;> rfl
+  | value => cases cl <;> cases e <;> rfl
+
+theorem builtin_out_query (f : DecodeFacts) (e e' : Entry) (req : Req) (d : Bool) (cl : Closure) (txt : Bytes) :
+    (outMsg e' req (builtinHandle f e req d cl txt)).query = [] ∨
+    (outMsg e' req (builtinHandle f e req d cl txt)).query = req.query := by
+  unfold builtinHandle
+  cases decodeDecision f req.header.bodyFormat req.body.isEmpty d with
+  | reject c => cases e <;> simp [outMsg, errorFor]
+  | fail c b => cases b <;> cases e <;> cases e' <;> simp [outMsg, errorFor]
+  | value => cases cl <;> cases e <;> simp [outMsg, errorFor, builtinResponse, Builder.build]
+
 end Repe
